@@ -75,7 +75,7 @@ def subchecks(tier):
          "system_capacity": 0.1, "server_priority": 0.1, "slotted": 0.1, "sched_preempt": 0.0}
     ren = S.Profile(REN_ALLOWED, weights=w, required=("reneging",), numeric="mixed", max_nodes=3, max_classes=3,
                     plans=("max_time", "max_time", "max_customers"), horizon=(5.0, 14.0), budget=600, load="heavy",
-                    excluded=("jockey_capacity",))
+                    excluded=())
     wb = {"baulking": 1.0, "capacity": 0.4, "priorities": 0.3, "batching": 0.5, "system_capacity": 0.2, "routing_objects": 0.3,
           "self_loops": 0.3, "inf": 0.1, "schedule": 0.15, "reneging": 0.2, "zero_servers": 0.1, "cc_after": 0.1, "sched_preempt": 0.0}
     bprof = S.Profile(BAULK_ALLOWED, weights=wb, required=("baulking",), numeric="mixed", max_nodes=3, max_classes=3,
